@@ -346,7 +346,7 @@ impl RunState {
             "caller should have ensured stack feature is enabled",
         );
         // Decrement stack
-        *self.reg_mut(7) -= 1;
+        *self.reg_mut(7) = self.reg(7).wrapping_sub(1);
         let sp = self.reg(7);
         // Save onto stack
         *self.mem_mut(sp) = val;
@@ -359,7 +359,7 @@ impl RunState {
         );
         let sp = self.reg(7);
         let val = self.mem(sp);
-        *self.reg_mut(7) += 1;
+        *self.reg_mut(7) = self.reg(7).wrapping_add(1);
         val
     }
 
